@@ -228,7 +228,7 @@ class Check(core.PropertyCheck):
 
     def _work(self, tier):
         if tier == "quick":
-            w = {(f, fld, 2 if fld in ("body", "hval", "path", "hname") else 1)
+            w = {(f, fld, 2 if fld in ("body", "hval", "path") else 1)
                  for f in ("curl", "httpie") for fld in self.FIELDS}
             w |= {("raw", fld, 2 if fld == "body" else 1) for fld in ("method", "path", "hname", "hval", "body")}
             return w
@@ -261,7 +261,7 @@ class Check(core.PropertyCheck):
         # the graph is no longer needed; drop it before the fork pool starts (every bash run forks the worker)
         models[0].graph = None
         del g
-        cap = 600 if ctx.quick else 9000
+        cap = 450 if ctx.quick else 9000
         if len(behs) > cap:
             ctx.rng.shuffle(behs)
             behs = behs[:cap]
@@ -275,13 +275,26 @@ class Check(core.PropertyCheck):
                 fmt, (field, s) = "raw", args
             yield self._scenario(fmt, field, s, rng.randrange(1 << 30), predicted=core.predicted_events(b))
         # beyond the model: strings of length 3..6 over the alphabet in one field (no prediction)
-        n_long = 120 if ctx.quick else 7000
+        n_long = 80 if ctx.quick else 7000
         for _ in range(n_long):
             fmt = rng.choice(("curl", "curl", "httpie", "raw"))
             field = rng.choice(self.FIELDS[:6] if fmt != "raw" else ("method", "path", "hname", "hval", "body"))
             s = [rng.choice(ALPHABET) for _ in range(rng.randint(3, 6))]
             yield core.Scenario({"fmt": fmt, "field": field, "classes": s, "seed": rng.randrange(1 << 30), "long": True},
                                 source="random")
+        # the scenarios of findings_proposed/C48.md (one per known cause), so that every run exercises each of them
+        for mixed, hs in (
+                ({"method": "POST", "body": "discount=100%\nnext=1"}, []),
+                ({"method": "POST", "body": "--boundary42\r\nContent-Disposition: form-data; name=\"a\"\r\n\r\n1\r\n--boundary42--"},
+                 [["content-type", "multipart/form-data; boundary=boundary42"]]),
+                ({"method": "POST", "body": "{\"a\": 1}\n"}, []),
+                ({"method": "POST", "body": "path=C:\\\\temp\nx=1"}, []),
+                ({"method": "POST", "body": "@/etc/hostname"}, []),
+                ({"method": "POST", "path": "items[1].json?filter={a,b}"}, []),
+                ({"method": "POST"}, [["x-empty", ""]]),
+                ({"method": "POST"}, [["@at", "v"]]),
+                ({"method": "GET", "body": "q=1"}, [])):
+            yield core.Scenario({"fmt": "curl", "mixed": mixed, "headers": hs, "seed": 1}, source="suite")
         # hand-made injection payloads in every field
         for i, pl in enumerate(PAYLOADS):
             for field in ("method", "host", "path", "hname", "hval", "body"):
@@ -290,7 +303,7 @@ class Check(core.PropertyCheck):
                         continue
                     yield core.Scenario({"fmt": fmt, "mixed": {field: pl}, "seed": rng.randrange(1 << 30)}, source="payload")
         # mixed requests: several fields at once, several headers, accept-encoding, preserve_original_ip, binary bodies
-        for _ in range(150 if ctx.quick else 5000):
+        for _ in range(120 if ctx.quick else 5000):
             fmt = rng.choice(("curl", "curl", "httpie", "raw"))
             mixed = {}
             for field in ("method", "host", "path", "body"):
